@@ -122,7 +122,10 @@ func init() {
 				if r.cc != nil {
 					made = append(made, r)
 				}
-				if p["redial"] == "1" && r.cc != nil {
+				if p["redial"] != "" && r.cc != nil {
+					if p["redial"] != "1" { // redial=<ms>: the second connection comes that long after the first
+						x.Pause(ms(p["redial"]))
+					}
 					// a second connection to the same id while its listener is serving (what gRPC does by itself
 					// when it reconnects): it must reach the same server and disturb nobody
 					rd := make(chan struct{})
@@ -225,6 +228,10 @@ func init() {
 					out = append(out, explore.Params{"seq": a, "redial": "1"})
 				}
 				out = append(out, explore.Params{"seq": "pA0,hA0", "redial": "1"}, explore.Params{"seq": "hD0,pD0", "redial": "1"})
+				// the second connection long after the first (past every 5 s timer of the broker)
+				for _, a := range []string{"pA0", "hA0", "pD1000", "hD0"} {
+					out = append(out, explore.Params{"seq": a, "redial": "6000"})
+				}
 			case "traffic-single":
 				for _, a := range one {
 					out = append(out, explore.Params{"seq": a, "traffic": "1"})
